@@ -167,6 +167,11 @@ def corpus():
             c = dict(base)
             c["threads"] = th
             out.append((w, c, 0))
+    w3 = {"files": {b"deep/er/f": F(b"a\nb\n", 0o666), b"ro": F(b"x\n", 0o444)}, "dirs": [], "applied": None, "series": b"p1.patch\n",
+          "patches": {b"p1.patch": b"--- a/deep/er/f\n+++ b/deep/er/f\n@@ -1,2 +1,2 @@\n-a\n+A\n b\n--- a/ro\n+++ b/ro\n@@ -1 +1 @@\n-x\n+X\n"}}
+    c = dict(base)
+    c["backup"] = "A"
+    out.append((w3, c, 0))
     return out
 
 
@@ -186,6 +191,11 @@ def run(ctx):
             names = l3common.series_names(w)
             if not names:
                 continue
+            # modes with bits the umask would remove from a file created with open(.., mode): a backup holds the mode the
+            # file HAD (seeded C08-i: the backup file was created with the mode in the open call)
+            for k in list(w["files"]):
+                if rng.random() < 0.3:
+                    w["files"][k] = (w["files"][k][0], rng.choice([0o666, 0o664, 0o775, 0o777, 0o640, 0o444]))
             cfg = l3common.rand_cfg(rng, threads=(1, 1, 2, 4))
             cfg["backup"] = rng.choice("AAON")
             cfg["count"] = rng.choice([-1, 0, 1, 2, 3, 100])
